@@ -10,72 +10,200 @@ import (
 // BufHandler: the bodies of Serf.handleUserEvent and Serf.handleQuery
 // (serf/serf.go) translated statement by statement into the IR of
 // lean/SerfModel/Model/BufHandlerIR.lean: guard expressions, the definition of
-// curTime, the slot index, the same-time test, the duplicate test, the else
-// branch, the append, the delivery, the return values, and their order.
-// Lock calls, log lines and metrics calls are skipped (Gen/BufLocks covers the
-// lock region). Every other statement shape is an error.
+// curTime, the slot index, the same-time test, the duplicate test, the fresh
+// record and its store, the append, the delivery, the return values, and their
+// order. Lock calls, log lines and metrics calls are skipped (Gen/BufLocks
+// covers the lock region). Every other statement shape is an error.
+//
+// The translation goes by MEANING, not by spelling, and ends in a canonical form,
+// so that behaviour-preserving edits give the same output:
+//   - locals, the receiver and the parameter may have any names (roles are found
+//     from how a variable is defined and used: the buffer index, the record read
+//     from the buffer, the item, the clock-dependent local, the re-broadcast flag);
+//   - other scalar locals (`n := LamportTime(len(s.eventBuffer))`) are inlined;
+//   - a boolean helper method of Serf with a straight-line body is inlined;
+//   - comparisons are oriented (`a > b` = `b < a`), negations pushed inwards,
+//     operands of == / != ordered; `if A || B { return false }` is two guards;
+//   - the same-time test may be written either way round (`if same {dup} else
+//     {fresh}` or `if !same {fresh} else {dup}`);
+//   - the duplicate loop may range by value or by index, Equals either way round;
+//   - the pure definitions of curTime and idx are hoisted to just after the
+//     witness (they read nothing the guards change);
+//   - `defer Unlock()` or explicit unlocks before the returns are both skipped.
+
+// ---------------------------------------------------------------- IR
+
+type irE struct {
+	op   string // ltime minTime cur clockTime lenN seenLTime lit sub add mod
+	a, b *irE
+	n    uint64
+}
+
+func (e *irE) String() string {
+	switch e.op {
+	case "lit":
+		return fmt.Sprintf("(.lit %d)", e.n)
+	case "sub", "add", "mod":
+		return fmt.Sprintf("(.%s %s %s)", e.op, e.a, e.b)
+	}
+	return "." + e.op
+}
+
+func (e *irE) mentions(op string) bool {
+	if e == nil {
+		return false
+	}
+	return e.op == op || e.a.mentions(op) || e.b.mentions(op)
+}
+
+type irC struct {
+	op     string // lt le eq ne seenNotNil seenNil and or not
+	ea, eb *irE
+	ca, cb *irC
+}
+
+func (c *irC) String() string {
+	switch c.op {
+	case "seenNotNil", "seenNil":
+		return "." + c.op
+	case "and", "or":
+		return fmt.Sprintf("(.%s %s %s)", c.op, c.ca, c.cb)
+	case "not":
+		return fmt.Sprintf("(.not %s)", c.ca)
+	}
+	return fmt.Sprintf("(.%s %s %s)", c.op, c.ea, c.eb)
+}
+
+func (c *irC) mentions(op string) bool {
+	if c == nil {
+		return false
+	}
+	return c.ea.mentions(op) || c.eb.mentions(op) || c.ca.mentions(op) || c.cb.mentions(op)
+}
+
+// negC / normC: canonical form of conditions (no gt/ge, no not, ordered == operands).
+func negC(c *irC) *irC {
+	switch c.op {
+	case "lt":
+		return &irC{op: "le", ea: c.eb, eb: c.ea}
+	case "le":
+		return &irC{op: "lt", ea: c.eb, eb: c.ea}
+	case "eq":
+		return &irC{op: "ne", ea: c.ea, eb: c.eb}
+	case "ne":
+		return &irC{op: "eq", ea: c.ea, eb: c.eb}
+	case "seenNotNil":
+		return &irC{op: "seenNil"}
+	case "seenNil":
+		return &irC{op: "seenNotNil"}
+	case "and":
+		return &irC{op: "or", ca: negC(c.ca), cb: negC(c.cb)}
+	case "or":
+		return &irC{op: "and", ca: negC(c.ca), cb: negC(c.cb)}
+	case "not":
+		return c.ca
+	}
+	return &irC{op: "not", ca: c}
+}
+
+func normC(c *irC) *irC {
+	switch c.op {
+	case "gt":
+		return &irC{op: "lt", ea: c.eb, eb: c.ea}
+	case "ge":
+		return &irC{op: "le", ea: c.eb, eb: c.ea}
+	case "eq", "ne":
+		if c.ea.String() > c.eb.String() {
+			return &irC{op: c.op, ea: c.eb, eb: c.ea}
+		}
+		return c
+	case "and", "or":
+		return &irC{op: c.op, ca: normC(c.ca), cb: normC(c.cb)}
+	case "not":
+		return normC(negC(normC(c.ca)))
+	}
+	return c
+}
+
+// ---------------------------------------------------------------- context
 
 type bhCtx struct {
-	recv   string // receiver name ("s")
-	msg    string // parameter name ("eventMsg" / "query")
+	file   *ast.File
+	recv   string // receiver name
+	msg    string // parameter name
 	clock  string // "eventClock" / "queryClock"
 	minT   string // "eventMinTime" / "queryMinTime"
 	buffer string // "eventBuffer" / "queryBuffer"
 	lock   string // "eventLock" / "queryLock"
 	items  string // "Events" / "QueryIDs"
 	isUE   bool
+
+	curVar, idxVar, seenVar, itemVar, rbVar string
+	env                                     map[string]*irE // inlined pure scalar locals
+	depth                                   int
 }
 
-func (c *bhCtx) expr(e ast.Expr) (string, error) {
+func (c *bhCtx) expr(e ast.Expr) (*irE, error) {
 	src := exprString(e)
-	switch src {
-	case c.msg + ".LTime":
-		return ".ltime", nil
-	case c.recv + "." + c.minT:
-		return ".minTime", nil
-	case "curTime":
-		return ".cur", nil
-	case c.recv + "." + c.clock + ".Time()":
-		return ".clockTime", nil
-	case "LamportTime(len(" + c.recv + "." + c.buffer + "))":
-		return ".lenN", nil
-	case "seen.LTime":
-		return ".seenLTime", nil
+	switch {
+	case src == c.msg+".LTime":
+		return &irE{op: "ltime"}, nil
+	case src == c.recv+"."+c.minT:
+		return &irE{op: "minTime"}, nil
+	case src == c.recv+"."+c.clock+".Time()":
+		return &irE{op: "clockTime"}, nil
+	case src == "LamportTime(len("+c.recv+"."+c.buffer+"))":
+		return &irE{op: "lenN"}, nil
+	case c.seenVar != "" && src == c.seenVar+".LTime":
+		return &irE{op: "seenLTime"}, nil
 	}
 	switch x := e.(type) {
+	case *ast.Ident:
+		if x.Name == c.curVar && c.curVar != "" {
+			return &irE{op: "cur"}, nil
+		}
+		if v, ok := c.env[x.Name]; ok {
+			return v, nil
+		}
 	case *ast.ParenExpr:
 		return c.expr(x.X)
 	case *ast.BasicLit:
 		if x.Kind == token.INT {
 			var n uint64
 			if _, err := fmt.Sscan(x.Value, &n); err == nil {
-				return fmt.Sprintf("(.lit %d)", n), nil
+				return &irE{op: "lit", n: n}, nil
 			}
+		}
+	case *ast.CallExpr:
+		if exprString(x.Fun) == "LamportTime" && len(x.Args) == 1 { // a conversion
+			return c.expr(x.Args[0])
 		}
 	case *ast.BinaryExpr:
 		op := map[token.Token]string{token.SUB: "sub", token.ADD: "add", token.REM: "mod"}[x.Op]
 		if op != "" {
 			a, err := c.expr(x.X)
 			if err != nil {
-				return "", err
+				return nil, err
 			}
 			b, err := c.expr(x.Y)
 			if err != nil {
-				return "", err
+				return nil, err
 			}
-			return fmt.Sprintf("(.%s %s %s)", op, a, b), nil
+			return &irE{op: op, a: a, b: b}, nil
 		}
 	}
-	return "", fmt.Errorf("unsupported expression %q", src)
+	return nil, fmt.Errorf("unsupported expression %q", src)
 }
 
-func (c *bhCtx) cond(e ast.Expr) (string, error) {
+func (c *bhCtx) cond(e ast.Expr) (*irC, error) {
 	src := exprString(e)
-	switch src {
-	case "seen != nil":
-		return ".seenNotNil", nil
-	case "seen == nil":
-		return ".seenNil", nil
+	if c.seenVar != "" {
+		switch src {
+		case c.seenVar + " != nil", "nil != " + c.seenVar:
+			return &irC{op: "seenNotNil"}, nil
+		case c.seenVar + " == nil", "nil == " + c.seenVar:
+			return &irC{op: "seenNil"}, nil
+		}
 	}
 	switch x := e.(type) {
 	case *ast.ParenExpr:
@@ -84,51 +212,113 @@ func (c *bhCtx) cond(e ast.Expr) (string, error) {
 		if x.Op == token.NOT {
 			a, err := c.cond(x.X)
 			if err != nil {
-				return "", err
+				return nil, err
 			}
-			return fmt.Sprintf("(.not %s)", a), nil
+			return &irC{op: "not", ca: a}, nil
 		}
+	case *ast.CallExpr:
+		return c.inlineHelper(x)
 	case *ast.BinaryExpr:
 		if x.Op == token.LAND || x.Op == token.LOR {
 			a, err := c.cond(x.X)
 			if err != nil {
-				return "", err
+				return nil, err
 			}
 			b, err := c.cond(x.Y)
 			if err != nil {
-				return "", err
+				return nil, err
 			}
-			return fmt.Sprintf("(.%s %s %s)", map[token.Token]string{token.LAND: "and", token.LOR: "or"}[x.Op], a, b), nil
+			return &irC{op: map[token.Token]string{token.LAND: "and", token.LOR: "or"}[x.Op], ca: a, cb: b}, nil
 		}
 		op := map[token.Token]string{token.LSS: "lt", token.LEQ: "le", token.GTR: "gt", token.GEQ: "ge", token.EQL: "eq", token.NEQ: "ne"}[x.Op]
 		if op != "" {
 			a, err := c.expr(x.X)
 			if err != nil {
-				return "", err
+				return nil, err
 			}
 			b, err := c.expr(x.Y)
 			if err != nil {
-				return "", err
+				return nil, err
 			}
-			return fmt.Sprintf("(.%s %s %s)", op, a, b), nil
+			return &irC{op: op, ea: a, eb: b}, nil
 		}
 	}
-	return "", fmt.Errorf("unsupported condition %q", src)
+	return nil, fmt.Errorf("unsupported condition %q", src)
 }
 
-// isNoise: statements without effect on the modelled state (log lines, metrics).
+// inlineHelper: a call `recv.helper(args…)` of a boolean method of Serf whose body is
+// scalar definitions followed by one `return <condition>` is replaced by that condition.
+func (c *bhCtx) inlineHelper(call *ast.CallExpr) (*irC, error) {
+	sel, ok := call.Fun.(*ast.SelectorExpr)
+	if !ok || exprString(sel.X) != c.recv || c.depth > 0 {
+		return nil, fmt.Errorf("unsupported condition %q", exprString(call))
+	}
+	fd := findFunc(c.file, "Serf", sel.Sel.Name)
+	if fd == nil || fd.Body == nil || fd.Recv == nil || len(fd.Recv.List[0].Names) != 1 {
+		return nil, fmt.Errorf("unsupported condition %q (no such helper)", exprString(call))
+	}
+	var params []string
+	for _, p := range fd.Type.Params.List {
+		for _, n := range p.Names {
+			params = append(params, n.Name)
+		}
+	}
+	if len(params) != len(call.Args) {
+		return nil, fmt.Errorf("helper %s: %d parameters, %d arguments", sel.Sel.Name, len(params), len(call.Args))
+	}
+	saved := *c
+	defer func() { *c = saved }()
+	env := map[string]*irE{}
+	msg := "\x00none"
+	for i, a := range call.Args {
+		if exprString(a) == saved.msg {
+			msg = params[i]
+			continue
+		}
+		v, err := saved.expr(a)
+		if err != nil {
+			return nil, fmt.Errorf("helper %s: argument %q: %v", sel.Sel.Name, exprString(a), err)
+		}
+		env[params[i]] = v
+	}
+	c.recv, c.msg, c.env, c.curVar, c.depth = fd.Recv.List[0].Names[0].Name, msg, env, "", 1
+	n := len(fd.Body.List)
+	for _, st := range fd.Body.List[:n-1] {
+		as, ok := st.(*ast.AssignStmt)
+		if !ok || as.Tok != token.DEFINE || len(as.Lhs) != 1 || len(as.Rhs) != 1 {
+			return nil, fmt.Errorf("helper %s: unsupported statement %q", sel.Sel.Name, exprString(st))
+		}
+		v, err := c.expr(as.Rhs[0])
+		if err != nil {
+			return nil, fmt.Errorf("helper %s: %v", sel.Sel.Name, err)
+		}
+		c.env[exprString(as.Lhs[0])] = v
+	}
+	ret, ok := fd.Body.List[n-1].(*ast.ReturnStmt)
+	if !ok || len(ret.Results) != 1 {
+		return nil, fmt.Errorf("helper %s: does not end in a return", sel.Sel.Name)
+	}
+	return c.cond(ret.Results[0])
+}
+
+// isNoise: statements without effect on the modelled state (log lines, metrics,
+// lock calls — the lock region is Gen/BufLocks' subject).
 func (c *bhCtx) isNoise(st ast.Stmt) bool {
+	if d, ok := st.(*ast.DeferStmt); ok {
+		return exprString(d.Call) == c.recv+"."+c.lock+".Unlock()"
+	}
 	es, ok := st.(*ast.ExprStmt)
 	if !ok {
 		return false
 	}
 	src := exprString(es.X)
-	return strings.HasPrefix(src, c.recv+".logger.Printf(") || strings.HasPrefix(src, "metrics.")
+	return strings.HasPrefix(src, c.recv+".logger.Printf(") || strings.HasPrefix(src, "metrics.") ||
+		src == c.recv+"."+c.lock+".Lock()" || src == c.recv+"."+c.lock+".Unlock()"
 }
 
 func isReturn(st ast.Stmt, what string) bool {
 	r, ok := st.(*ast.ReturnStmt)
-	return ok && len(r.Results) == 1 && exprString(r.Results[0]) == what
+	return ok && what != "" && len(r.Results) == 1 && exprString(r.Results[0]) == what
 }
 
 // bodyReturns: the block consists of noise and ends with `return <what>`.
@@ -144,31 +334,96 @@ func (c *bhCtx) bodyReturns(b *ast.BlockStmt, what string) bool {
 	return true
 }
 
-// dupTest recognises the body of the same-time branch.
+// dupTest recognises the duplicate test of the same-time branch.
 func (c *bhCtx) dupTest(b *ast.BlockStmt) (string, error) {
-	if len(b.List) != 1 {
-		return "", fmt.Errorf("same-time branch has %d statements", len(b.List))
+	if b == nil || len(b.List) != 1 {
+		return "", fmt.Errorf("same-time branch is not one statement")
+	}
+	items := c.seenVar + "." + c.items
+	item := c.itemVar
+	if !c.isUE {
+		item = c.msg + ".ID"
+	}
+	oneIf := func(body *ast.BlockStmt) *ast.IfStmt {
+		if len(body.List) != 1 {
+			return nil
+		}
+		in, ok := body.List[0].(*ast.IfStmt)
+		if !ok || in.Else != nil || in.Init != nil || !c.bodyReturns(in.Body, "false") {
+			return nil
+		}
+		return in
 	}
 	switch st := b.List[0].(type) {
 	case *ast.RangeStmt:
-		// for _, previous := range seen.Events { if previous.Equals(&userEvent) { return false } }
-		if exprString(st.X) != "seen."+c.items || st.Value == nil || len(st.Body.List) != 1 {
-			return "", fmt.Errorf("unsupported duplicate loop %q", exprString(st))
+		if exprString(st.X) != items {
+			return "", fmt.Errorf("duplicate loop ranges over %q", exprString(st.X))
 		}
-		v := exprString(st.Value)
-		in, ok := st.Body.List[0].(*ast.IfStmt)
-		if !ok || in.Else != nil || in.Init != nil || exprString(in.Cond) != v+".Equals(&userEvent)" || !c.bodyReturns(in.Body, "false") {
-			return "", fmt.Errorf("unsupported duplicate test %q", exprString(st.Body))
+		in := oneIf(st.Body)
+		if in == nil {
+			return "", fmt.Errorf("unsupported duplicate loop body %q", exprString(st.Body))
 		}
-		return ".equalsLoop", nil
+		elem := ""
+		switch {
+		case st.Value != nil:
+			elem = exprString(st.Value)
+		case st.Key != nil:
+			elem = items + "[" + exprString(st.Key) + "]"
+		}
+		cs := exprString(in.Cond)
+		if c.isUE && item != "" && (cs == elem+".Equals(&"+item+")" || cs == item+".Equals(&"+elem+")") {
+			return ".equalsLoop", nil
+		}
+		if !c.isUE && (cs == elem+" == "+item || cs == item+" == "+elem) {
+			return ".containsItem", nil
+		}
+		return "", fmt.Errorf("unsupported duplicate test %q", cs)
 	case *ast.IfStmt:
-		// if slices.Contains(seen.QueryIDs, query.ID) { return false }
-		if st.Else != nil || st.Init != nil || exprString(st.Cond) != "slices.Contains(seen."+c.items+", "+c.msg+".ID)" || !c.bodyReturns(st.Body, "false") {
-			return "", fmt.Errorf("unsupported duplicate test %q", exprString(st.Cond))
+		if st.Else == nil && st.Init == nil && !c.isUE && exprString(st.Cond) == "slices.Contains("+items+", "+item+")" && c.bodyReturns(st.Body, "false") {
+			return ".containsItem", nil
 		}
-		return ".containsItem", nil
+		return "", fmt.Errorf("unsupported duplicate test %q", exprString(st.Cond))
 	}
 	return "", fmt.Errorf("unsupported duplicate test %q", exprString(b.List[0]))
+}
+
+// freshBranch recognises `seen = &T{LTime: e}; buf[idx] = seen`.
+func (c *bhCtx) freshBranch(b *ast.BlockStmt) (newSeen string, store string, err error) {
+	newSeen, store = "none", "false"
+	if b == nil {
+		return "", "", fmt.Errorf("missing fresh-record branch")
+	}
+	for _, es := range b.List {
+		as, ok := es.(*ast.AssignStmt)
+		if !ok || as.Tok != token.ASSIGN || len(as.Lhs) != 1 || len(as.Rhs) != 1 {
+			return "", "", fmt.Errorf("unsupported statement in the fresh-record branch %q", exprString(es))
+		}
+		l := exprString(as.Lhs[0])
+		switch {
+		case l == c.seenVar && store == "false" && newSeen == "none":
+			var lte ast.Expr
+			if u, ok := as.Rhs[0].(*ast.UnaryExpr); ok && u.Op == token.AND {
+				if cl, ok := u.X.(*ast.CompositeLit); ok && len(cl.Elts) == 1 {
+					if kv, ok := cl.Elts[0].(*ast.KeyValueExpr); ok && exprString(kv.Key) == "LTime" {
+						lte = kv.Value
+					}
+				}
+			}
+			if lte == nil {
+				return "", "", fmt.Errorf("unsupported fresh record %q", exprString(es))
+			}
+			e, err := c.expr(lte)
+			if err != nil {
+				return "", "", err
+			}
+			newSeen = "(some " + e.String() + ")"
+		case l == c.recv+"."+c.buffer+"["+c.idxVar+"]" && exprString(as.Rhs[0]) == c.seenVar && store == "false":
+			store = "true"
+		default:
+			return "", "", fmt.Errorf("unsupported statement in the fresh-record branch %q", exprString(es))
+		}
+	}
+	return newSeen, store, nil
 }
 
 // compositeFields returns the key → value sources of a (possibly &-prefixed) composite literal.
@@ -189,30 +444,80 @@ func compositeFields(e ast.Expr) (string, map[string]string) {
 	return exprString(cl.Type), m
 }
 
+type bhStmt struct {
+	kind string // witness retFalseIf setCur setIdx other
+	text string // for kind other
+	e    *irE   // witness / setCur / setIdx
+	c    *irC   // retFalseIf
+}
+
+func (s bhStmt) usesCur() bool { return s.e.mentions("cur") || s.c.mentions("cur") }
+
+func (s bhStmt) render() string {
+	switch s.kind {
+	case "witness", "setCur", "setIdx":
+		return "." + s.kind + " " + s.e.String()
+	case "retFalseIf":
+		return ".retFalseIf " + s.c.String()
+	}
+	return s.text
+}
+
+// substE / substC replace the atom `from` by the atom `to`.
+func substE(e *irE, from, to string) *irE {
+	if e == nil {
+		return nil
+	}
+	if e.op == from {
+		return &irE{op: to}
+	}
+	return &irE{op: e.op, a: substE(e.a, from, to), b: substE(e.b, from, to), n: e.n}
+}
+
+func substC(c *irC, from, to string) *irC {
+	if c == nil {
+		return nil
+	}
+	return &irC{op: c.op, ea: substE(c.ea, from, to), eb: substE(c.eb, from, to), ca: substC(c.ca, from, to), cb: substC(c.cb, from, to)}
+}
+
+// splitOr: `if A || B { return false }` is `if A { return false }; if B { return false }`.
+func splitOr(c *irC) []*irC {
+	if c.op == "or" {
+		return append(splitOr(c.ca), splitOr(c.cb)...)
+	}
+	return []*irC{c}
+}
+
 func (c *bhCtx) translate(fd *ast.FuncDecl) ([]string, error) {
-	var out []string
+	// the buffer index variable: the identifier the buffer is indexed with
+	ast.Inspect(fd.Body, func(n ast.Node) bool {
+		if ix, ok := n.(*ast.IndexExpr); ok && exprString(ix.X) == c.recv+"."+c.buffer {
+			if id, ok := ix.Index.(*ast.Ident); ok && c.idxVar == "" {
+				c.idxVar = id.Name
+			}
+		}
+		return true
+	})
+	if c.idxVar == "" {
+		return nil, fmt.Errorf("the buffer is never indexed with a local variable")
+	}
+	var out []bhStmt
+	emit := func(kind, text string) { out = append(out, bhStmt{kind: kind, text: text}) }
 	for _, st := range fd.Body.List {
 		if c.isNoise(st) {
 			continue
 		}
 		src := exprString(st)
 		switch x := st.(type) {
-		case *ast.DeferStmt:
-			if exprString(x.Call) == c.recv+"."+c.lock+".Unlock()" {
-				continue
-			}
-			return nil, fmt.Errorf("unsupported defer %q", src)
 		case *ast.ExprStmt:
-			if src == c.recv+"."+c.lock+".Lock()" {
-				continue
-			}
 			call, ok := x.X.(*ast.CallExpr)
 			if ok && exprString(call.Fun) == c.recv+"."+c.clock+".Witness" && len(call.Args) == 1 {
 				e, err := c.expr(call.Args[0])
 				if err != nil {
 					return nil, err
 				}
-				out = append(out, ".witness "+e)
+				out = append(out, bhStmt{kind: "witness", e: e})
 				continue
 			}
 			return nil, fmt.Errorf("unsupported statement %q", src)
@@ -221,44 +526,51 @@ func (c *bhCtx) translate(fd *ast.FuncDecl) ([]string, error) {
 				return nil, fmt.Errorf("unsupported assignment %q", src)
 			}
 			lhs, rhs := exprString(x.Lhs[0]), exprString(x.Rhs[0])
+			typ, fields := compositeFields(x.Rhs[0])
 			switch {
-			case x.Tok == token.DEFINE && lhs == "curTime":
-				e, err := c.expr(x.Rhs[0])
-				if err != nil {
-					return nil, err
+			case x.Tok == token.DEFINE && rhs == c.recv+"."+c.buffer+"["+c.idxVar+"]":
+				if c.seenVar != "" {
+					return nil, fmt.Errorf("the buffer slot is read twice")
 				}
-				out = append(out, ".setCur "+e)
-			case x.Tok == token.DEFINE && lhs == "idx":
-				e, err := c.expr(x.Rhs[0])
-				if err != nil {
-					return nil, err
-				}
-				out = append(out, ".setIdx "+e)
-			case x.Tok == token.DEFINE && lhs == "seen" && rhs == c.recv+"."+c.buffer+"[idx]":
-				out = append(out, ".loadSeen")
-			case x.Tok == token.DEFINE && lhs == "userEvent" && c.isUE:
-				_, f := compositeFields(x.Rhs[0])
-				if f == nil || len(f) != 2 || f["Name"] != c.msg+".Name" || f["Payload"] != c.msg+".Payload" {
+				c.seenVar = lhs
+				emit("other", ".loadSeen")
+			case x.Tok == token.DEFINE && c.isUE && typ == "userEvent":
+				if len(fields) != 2 || fields["Name"] != c.msg+".Name" || fields["Payload"] != c.msg+".Payload" || c.itemVar != "" {
 					return nil, fmt.Errorf("unsupported item construction %q", src)
 				}
-			case x.Tok == token.DEFINE && lhs == "rebroadcast" && !c.isUE:
-				switch rhs {
-				case "!" + c.msg + ".NoBroadcast()":
-					out = append(out, ".setRebroadcast true")
-				case c.msg + ".NoBroadcast()":
-					out = append(out, ".setRebroadcast false")
-				default:
-					return nil, fmt.Errorf("unsupported rebroadcast definition %q", src)
+				c.itemVar = lhs
+			case x.Tok == token.DEFINE && !c.isUE && (rhs == "!"+c.msg+".NoBroadcast()" || rhs == c.msg+".NoBroadcast()"):
+				if c.rbVar != "" {
+					return nil, fmt.Errorf("two re-broadcast flags")
 				}
-			case x.Tok == token.ASSIGN && lhs == "seen."+c.items:
-				item := "userEvent"
+				c.rbVar = lhs
+				emit("other", ".setRebroadcast "+leanBool(strings.HasPrefix(rhs, "!")))
+			case x.Tok == token.DEFINE:
+				e, err := c.expr(x.Rhs[0])
+				if err != nil {
+					return nil, err
+				}
+				switch {
+				case lhs == c.idxVar:
+					out = append(out, bhStmt{kind: "setIdx", e: e})
+				case e.mentions("clockTime") || e.mentions("cur") || e.mentions("seenLTime"):
+					if c.curVar != "" {
+						return nil, fmt.Errorf("a second clock-dependent local %q", lhs)
+					}
+					c.curVar = lhs
+					out = append(out, bhStmt{kind: "setCur", e: e})
+				default:
+					c.env[lhs] = e // a pure local: inlined
+				}
+			case x.Tok == token.ASSIGN && c.seenVar != "" && lhs == c.seenVar+"."+c.items:
+				item := c.itemVar
 				if !c.isUE {
 					item = c.msg + ".ID"
 				}
-				if rhs != "append(seen."+c.items+", "+item+")" {
+				if item == "" || rhs != "append("+c.seenVar+"."+c.items+", "+item+")" {
 					return nil, fmt.Errorf("unsupported append %q", src)
 				}
-				out = append(out, ".append")
+				emit("other", ".append")
 			default:
 				return nil, fmt.Errorf("unsupported assignment %q", src)
 			}
@@ -269,11 +581,10 @@ func (c *bhCtx) translate(fd *ast.FuncDecl) ([]string, error) {
 			cs := exprString(x.Cond)
 			switch {
 			case x.Else != nil:
-				same, err := c.cond(x.Cond)
-				if err != nil {
-					return nil, err
+				if c.seenVar == "" {
+					return nil, fmt.Errorf("if/else before the buffer slot is read")
 				}
-				dup, err := c.dupTest(x.Body)
+				raw, err := c.cond(x.Cond)
 				if err != nil {
 					return nil, err
 				}
@@ -281,43 +592,26 @@ func (c *bhCtx) translate(fd *ast.FuncDecl) ([]string, error) {
 				if !ok {
 					return nil, fmt.Errorf("unsupported else-if after %q", cs)
 				}
-				newSeen, store := "none", "false"
-				for _, es := range els.List {
-					as, ok := es.(*ast.AssignStmt)
-					if !ok || as.Tok != token.ASSIGN || len(as.Lhs) != 1 || len(as.Rhs) != 1 {
-						return nil, fmt.Errorf("unsupported else statement %q", exprString(es))
+				var same *irC
+				dup, derr := c.dupTest(x.Body)
+				newSeen, store, ferr := c.freshBranch(els)
+				if derr == nil && ferr == nil {
+					same = normC(raw)
+				} else {
+					// the other way round: if !same { fresh } else { duplicate test }
+					dup2, derr2 := c.dupTest(els)
+					newSeen2, store2, ferr2 := c.freshBranch(x.Body)
+					if derr2 != nil || ferr2 != nil {
+						if derr != nil {
+							return nil, derr
+						}
+						return nil, ferr
 					}
-					l := exprString(as.Lhs[0])
-					switch {
-					case l == "seen" && store == "false" && newSeen == "none":
-						_, f := compositeFields(as.Rhs[0])
-						if f == nil || len(f) != 1 {
-							return nil, fmt.Errorf("unsupported fresh record %q", exprString(es))
-						}
-						var lte ast.Expr
-						if u, ok := as.Rhs[0].(*ast.UnaryExpr); ok {
-							if cl, ok := u.X.(*ast.CompositeLit); ok && len(cl.Elts) == 1 {
-								if kv, ok := cl.Elts[0].(*ast.KeyValueExpr); ok && exprString(kv.Key) == "LTime" {
-									lte = kv.Value
-								}
-							}
-						}
-						if lte == nil {
-							return nil, fmt.Errorf("unsupported fresh record %q", exprString(es))
-						}
-						e, err := c.expr(lte)
-						if err != nil {
-							return nil, err
-						}
-						newSeen = "(some " + e + ")"
-					case l == c.recv+"."+c.buffer+"[idx]" && exprString(as.Rhs[0]) == "seen" && store == "false":
-						store = "true"
-					default:
-						return nil, fmt.Errorf("unsupported else statement %q", exprString(es))
-					}
+					dup, newSeen, store = dup2, newSeen2, store2
+					same = normC(&irC{op: "not", ca: raw})
 				}
-				out = append(out, fmt.Sprintf(".lookup %s %s %s %s", same, dup, newSeen, store))
-			case cs == c.recv+".config.EventCh != nil":
+				emit("other", fmt.Sprintf(".lookup %s %s %s %s", same, dup, newSeen, store))
+			case cs == c.recv+".config.EventCh != nil" || cs == "nil != "+c.recv+".config.EventCh":
 				if len(x.Body.List) != 1 {
 					return nil, fmt.Errorf("unsupported delivery block")
 				}
@@ -340,37 +634,39 @@ func (c *bhCtx) translate(fd *ast.FuncDecl) ([]string, error) {
 						return nil, fmt.Errorf("delivered field %s is %q, not %q", k, f[k], v)
 					}
 				}
-				out = append(out, ".deliver")
+				emit("other", ".deliver")
 			case !c.isUE && cs == "!"+c.recv+".shouldProcessQuery("+c.msg+".Filters)":
-				if !c.bodyReturns(x.Body, "rebroadcast") {
+				if !c.bodyReturns(x.Body, c.rbVar) {
 					return nil, fmt.Errorf("unsupported unselected branch")
 				}
-				out = append(out, ".retRebroadcastIfNotSelected")
+				emit("other", ".retRebroadcastIfNotSelected")
 			case !c.isUE && cs == c.msg+".Ack()":
 				body := exprString(x.Body)
-				if !strings.Contains(body, c.recv+".memberlist.SendToAddress(addr, raw)") || !strings.Contains(body, "Flags: queryFlagAck") ||
+				if !strings.Contains(body, c.recv+".memberlist.SendToAddress(") || !strings.Contains(body, "Flags: queryFlagAck") ||
 					!strings.Contains(body, "LTime: "+c.msg+".LTime") || !strings.Contains(body, "ID: "+c.msg+".ID") ||
 					!strings.Contains(body, "From: "+c.recv+".config.NodeName") || strings.Contains(body, "return") {
 					return nil, fmt.Errorf("unsupported ack block")
 				}
-				out = append(out, ".ackIf")
+				emit("other", ".ackIf")
 			case c.bodyReturns(x.Body, "false"):
 				cd, err := c.cond(x.Cond)
 				if err != nil {
 					return nil, err
 				}
-				out = append(out, ".retFalseIf "+cd)
+				for _, part := range splitOr(normC(cd)) {
+					out = append(out, bhStmt{kind: "retFalseIf", c: part})
+				}
 			default:
 				return nil, fmt.Errorf("unsupported if %q", cs)
 			}
 		case *ast.ReturnStmt:
 			switch {
 			case isReturn(st, "true"):
-				out = append(out, ".ret true")
+				emit("other", ".ret true")
 			case isReturn(st, "false"):
-				out = append(out, ".ret false")
-			case isReturn(st, "rebroadcast") && !c.isUE:
-				out = append(out, ".retRebroadcast")
+				emit("other", ".ret false")
+			case !c.isUE && isReturn(st, c.rbVar):
+				emit("other", ".retRebroadcast")
 			default:
 				return nil, fmt.Errorf("unsupported return %q", src)
 			}
@@ -378,7 +674,70 @@ func (c *bhCtx) translate(fd *ast.FuncDecl) ([]string, error) {
 			return nil, fmt.Errorf("unsupported statement %q", src)
 		}
 	}
-	return out, nil
+	// canonical form, step 1: the clock is read once. When every witness precedes every
+	// read of the clock, `clock.Time()` in a guard or in the index is the same value as a
+	// local defined as `clock.Time()` right after the last witness: introduce that local
+	// (if the source has none) and use it everywhere.
+	lastWitness, firstRead, hasPlainCur := -1, -1, false
+	for i, st := range out {
+		switch {
+		case st.kind == "witness":
+			lastWitness = i
+		case st.kind == "setCur":
+			if st.e.String() == ".clockTime" {
+				hasPlainCur = true
+			}
+			if firstRead < 0 {
+				firstRead = i
+			}
+		case st.e.mentions("clockTime") || st.c.mentions("clockTime"):
+			if firstRead < 0 {
+				firstRead = i
+			}
+		}
+	}
+	if firstRead > lastWitness && (hasPlainCur || c.curVar == "") {
+		var o2 []bhStmt
+		for i, st := range out {
+			if st.kind == "setCur" && st.e.String() == ".clockTime" {
+				continue
+			}
+			if st.kind != "setCur" {
+				st.e, st.c = substE(st.e, "clockTime", "cur"), substC(st.c, "clockTime", "cur")
+			}
+			o2 = append(o2, st)
+			if i == lastWitness {
+				o2 = append(o2, bhStmt{kind: "setCur", e: &irE{op: "clockTime"}})
+			}
+		}
+		if lastWitness < 0 {
+			o2 = append([]bhStmt{{kind: "setCur", e: &irE{op: "clockTime"}}}, o2...)
+		}
+		out = o2
+	}
+	// step 2: the pure definitions of curTime / idx move up past the guards (which change
+	// nothing) to just after the witness; curTime before idx.
+	for i := range out {
+		if out[i].kind != "setCur" && out[i].kind != "setIdx" {
+			continue
+		}
+		for j := i; j > 0; j-- {
+			p := out[j-1]
+			up := p.kind == "retFalseIf" && !(out[j].kind == "setCur" && p.usesCur())
+			if out[j].kind == "setCur" && p.kind == "setIdx" && !p.usesCur() {
+				up = true
+			}
+			if !up {
+				break
+			}
+			out[j-1], out[j] = out[j], out[j-1]
+		}
+	}
+	var txt []string
+	for _, s := range out {
+		txt = append(txt, s.render())
+	}
+	return txt, nil
 }
 
 func genBufHandler(repo string) (string, error) {
@@ -388,6 +747,7 @@ func genBufHandler(repo string) (string, error) {
 	}
 	var b strings.Builder
 	b.WriteString("-- GENERATED by /verif/extract from /repo/serf/serf.go (handleUserEvent, handleQuery bodies) — do not edit.\n")
+	b.WriteString("-- Canonical form: see extract/bufhandler.go (names by role, oriented comparisons, hoisted pure definitions).\n")
 	b.WriteString("import SerfModel.Model.BufHandlerIR\nnamespace SerfModel.Gen.BufHandler\nopen SerfModel.BufHandlerIR\n\n")
 	for _, c := range []*bhCtx{
 		{clock: "eventClock", minT: "eventMinTime", buffer: "eventBuffer", lock: "eventLock", items: "Events", isUE: true},
@@ -402,6 +762,8 @@ func genBufHandler(repo string) (string, error) {
 			len(fd.Type.Params.List) != 1 || len(fd.Type.Params.List[0].Names) != 1 {
 			return "", fmt.Errorf("%s: function not found or unexpected signature", name)
 		}
+		c.file = f
+		c.env = map[string]*irE{}
 		c.recv = fd.Recv.List[0].Names[0].Name
 		c.msg = fd.Type.Params.List[0].Names[0].Name
 		stmts, err := c.translate(fd)
